@@ -52,6 +52,9 @@ type Prop struct {
 	KeyOf func(c *Case, impl string) string
 	// Timeout per case for the implementation.
 	Timeout time.Duration
+	// SpecDiffers decides whether the implementation's answer contradicts the specification's
+	// answer to SpecReq (nil: plain string inequality).
+	SpecDiffers func(c *Case, want, impl string) bool
 	// Direct is an optional in-process sweep (needs no model); it appends to the report.
 	Direct func(g *G, r *Report)
 	// Canon optionally canonicalises the implementation's answer before any comparison
@@ -122,6 +125,20 @@ func corrMain(args []string) {
 		os.Exit(2)
 	}
 	t0 := time.Now()
+	// global watchdog: whatever the code under test does, this process ends and says why
+	budget := 10 * time.Minute
+	if *tier == "thorough" {
+		budget = 90 * time.Minute
+	}
+	time.AfterFunc(budget, func() {
+		rep := &Report{Property: p.ID, Seed: *seed, Tier: *tier, Rule: p.Rule, Distribution: map[string]int{}, Diffs: []Diff{}, Samples: []string{},
+			Violations: []Viol{{Key: "harness-timeout", What: "the run did not finish within its time budget (a call into the code under test hangs or is extremely slow)", Req: "(whole run)", Impl: "TIMEOUT", Want: "termination"}}}
+		b, _ := json.MarshalIndent(rep, "", " ")
+		if *report != "" {
+			os.WriteFile(*report, b, 0o644)
+		}
+		os.Exit(4)
+	})
 	g := &G{R: NewRNG(uint64(*seed)), Tier: *tier, Seed: *seed}
 	if *one != "" {
 		g.Add(Case{Req: *one, NT: true, Class: "replay"})
@@ -200,7 +217,7 @@ func corrMain(args []string) {
 			note := c.Note
 			// (1) the property oracle: a concrete failing input
 			var v *Viol
-			if want, ok := spec[i]; ok && want != impl[i] {
+			if want, ok := spec[i]; ok && (p.SpecDiffers == nil && want != impl[i] || p.SpecDiffers != nil && p.SpecDiffers(c, want, impl[i])) {
 				v = &Viol{What: "implementation differs from the specification", Want: want}
 			} else if p.Oracle != nil {
 				v = p.Oracle(c, impl[i])
